@@ -90,6 +90,8 @@ def build_classes(spec):
 def gen_error_args(ch):
     return {
         'status': ch.choice([400, 404, 409, 418, 422, 503, 500, 451], 'err_status'),
+        # the error may carry its own (equally legal) status line with a custom reason phrase
+        'reason': ch.choice([None, None, None, 'Validation Failed', 'Try Again Later'], 'err_reason'),
         'title': ch.choice([None] + TEXTS, 'title'),
         'description': ch.choice([None] + TEXTS, 'description'),
         'code': ch.choice([None, 0, 7, 123456789, -3], 'code'),
@@ -99,6 +101,10 @@ def gen_error_args(ch):
                               {'Vary': 'Accept-Language'}, [('Vary', 'Accept-Encoding, Cookie'), ('X-Err', 'v')]],
                              'err_headers'),
     }
+
+
+def _status_of(ea):
+    return '%d %s' % (ea['status'], ea['reason']) if ea.get('reason') else ea['status']
 
 
 def gen_status_args(ch):
@@ -259,7 +265,7 @@ def run(ctx):
             if cls_name == 'HTTPNotFound':
                 return cls(title=ea['title'], description=ea['description'], headers=ea['headers'],
                            href=ea['href'], href_text=ea['href_text'], code=ea['code'])
-            return cls(ea['status'], title=ea['title'], description=ea['description'],
+            return cls(_status_of(ea), title=ea['title'], description=ea['description'],
                        headers=ea['headers'], href=ea['href'], href_text=ea['href_text'], code=ea['code'])
         if fam == 'status':
             return cls(sa['status'], headers=sa['headers'], text=sa['text'])
@@ -356,8 +362,17 @@ def run(ctx):
         def body(req, resp, ex):
             if req.get_header('X-Req') != 'P':      # the preliminary request is not under observation
                 calls.append((k, type(ex).__name__, (resp.text, resp.data, resp.media)))
+            if beh in ('raise_http', 'raise_status'):
+                # what the handler wrote before it changed its mind must not survive
+                ak = stale_kind          # which of the three the handler leaves behind
+                if ak == 0:
+                    resp.text = 'abandoned by the handler'
+                elif ak == 1:
+                    resp.data = b'abandoned by the handler'
+                else:
+                    resp.media = {'abandoned': 'by the handler'}
             if beh == 'raise_http':
-                raise falcon.HTTPError(err2['status'], title=err2['title'], description=err2['description'],
+                raise falcon.HTTPError(_status_of(err2), title=err2['title'], description=err2['description'],
                                        headers=err2['headers'], href=err2['href'],
                                        href_text=err2['href_text'], code=err2['code'])
             if beh == 'raise_status':
@@ -464,6 +479,7 @@ def run(ctx):
                                                     pre='/pre' if pre_kind else None,
                                                     unreadable_body=unreadable)
         mon = conn.monitor
+        status_line = None
         status, headers, body = mon.status, [(n.decode('latin-1'), v.decode('latin-1'))
                                              for n, v in (mon.headers or [])], mon.body
         ctx.sched_key = 'A' + sig
@@ -475,6 +491,7 @@ def run(ctx):
         ex, st = run_wsgi(ctx, factory, '/r/x', headers=hdrs, pre='/pre' if pre_kind else None,
                           unreadable_body=unreadable)
         status, headers, body = ex.status_code, list(ex.headers or []), ex.body
+        status_line = ex.status
         app_exc = ex.app_exc
         ctx.sched_key = 'W'
         mviol = ex.violations
@@ -572,6 +589,7 @@ def run(ctx):
             ea = dict(err_args)
             if raise_cls == 'HTTPNotFound':
                 ea['status'] = 404
+                ea['reason'] = None         # the class fixes its status line
             if raise_cls in BUILTIN:
                 ea = {'status': BUILTIN[raise_cls][0], 'title': None, 'description': None, 'code': None,
                       'href': None, 'href_text': None, 'headers': dict(BUILTIN[raise_cls][1])}
@@ -631,6 +649,12 @@ def run(ctx):
     if status != ea['status']:
         ctx.violate('errors.rendering.status', 'HTTPError %r rendered with status %r' % (ea['status'], status), **sig)
         return
+    if not asgi and ea.get('reason') and status_line is not None \
+            and status_line != _status_of(ea):
+        # "an HTTP error produces its own status": on WSGI that is the whole status line
+        ctx.violate('errors.rendering.status', 'HTTPError with status %r rendered with status line %r' % (
+            _status_of(ea), status_line), kind='status_line', **sig)
+        return
     eh = ea['headers']
     for n, v in (eh.items() if isinstance(eh, dict) else (eh or [])):
         if n.lower() == 'vary':
@@ -644,7 +668,7 @@ def run(ctx):
         ctx.violate('errors.rendering.vary', 'Vary does not list Accept (Vary tokens %r, error headers %r, '
                     'pre-set Vary %r)' % (vary_tokens, eh, pre_vary), **sig)
     # reference to_dict()
-    title = ea['title'] or falcon.code_to_http_status(ea['status'])
+    title = ea['title'] or falcon.code_to_http_status(_status_of(ea))
     ref = {'title': title}
     if ea['description'] is not None:
         ref['description'] = ea['description']
